@@ -56,7 +56,7 @@ def parseLine (line : String) : Line :=
 def continuation (n : String) : Bool :=
   ["local.name", "local.pop", "locals.realloc.type", "locals.realloc.name", "literal.enter.type",
    "literal.enter.name", "literal.leave.type", "literal.leave.name", "local.reactivate", "mem.alloc", "mem.before", "inc.num",
-   "lex.start.if", "lex.end.if"].contains n
+   "lex.start.if", "lex.start.fnflag", "lex.end.if"].contains n
 
 /-- the identifier line that follows `local.type` (within the same add_local_name) -/
 def findIdent : List Line → Nat → Option (Id × Bool × Int)
@@ -102,6 +102,7 @@ def toEvent (s : St) (name : String) (c sz : Int) (rest : List Line) : Except St
   | "fnctx.push" => .ok (some .fnPush)
   | "fnctx.full" => .ok (some .fnPush)
   | "fnctx.pop" => .ok (some .fnPop)
+  | "fnflag.set" => .ok (some .fnFlagSet)
   | _ => if continuation name then .ok none else .error s!"desync: unknown trace point {name}"
 
 structure Replay where
